@@ -1356,3 +1356,33 @@ M("C02-benign-make-seq-tuple-not-form", "C02", "src/interrogate/interfaceMakerPy
   "    \"  if (tuple == nullptr) {\\n\"\n    \"    return nullptr;\\n\"\n    \"  }\\n\"\n",
   "    \"  if (!tuple) {\\n\"\n    \"    return nullptr;\\n\"\n    \"  }\\n\"\n",
   benign=True)
+
+# ---------------------------------------------------------------- R04.2 vis (make_property), R04.10, R04.11 (F-C04a, F-C04b)
+M("C04-command-file-stops-at-eof", "C04", "src/interrogate/interrogateBuilder.cxx",
+  "  while (!in.fail()) {\n    // Strip out the comment.",
+  "  while (!in.fail() && !in.eof()) {\n    // Strip out the comment.",
+  expect="R04.11|read_command_file|loop-does-not-stop-at-eof")
+M("C04-benign-command-file-getline-loop", "C04", "src/interrogate/interrogateBuilder.cxx",
+  "  while (!in.fail()) {\n    // Strip out the comment.",
+  "  while (!(in.fail())) {\n    // Strip out the comment.",
+  benign=True)
+M("C04-private-make-property-exported", "C04", "src/interrogate/interrogateBuilder.cxx",
+  "      if ((*di)->_vis <= min_vis) {\n        ElementIndex element_index = get_make_property(",
+  "      if ((*di)->_vis <= V_private) {\n        ElementIndex element_index = get_make_property(",
+  expect="R04.2|define_struct_type|get_make_property")
+M("C04-private-make-seq-exported", "C04", "src/interrogate/interrogateBuilder.cxx",
+  "      if ((*di)->_vis <= min_vis) {\n        MakeSeqIndex make_seq_index = get_make_seq(",
+  "      {\n        MakeSeqIndex make_seq_index = get_make_seq(",
+  expect="R04.2|define_struct_type|get_make_seq")
+M("C04-private-accessor-taken", "C04", "src/interrogate/interrogateBuilder.cxx",
+  "  fgroup = make_property->_get_function;\n  if (fgroup != nullptr) {\n    CPPFunctionGroup::Instances::const_iterator fi;\n    for (fi = fgroup->_instances.begin(); fi != fgroup->_instances.end(); ++fi) {\n      CPPInstance *function = (*fi);\n      if (function->_vis > V_public) {\n        // A private or protected method cannot be called from a wrapper.\n        continue;\n      }\n",
+  "  fgroup = make_property->_get_function;\n  if (fgroup != nullptr) {\n    CPPFunctionGroup::Instances::const_iterator fi;\n    for (fi = fgroup->_instances.begin(); fi != fgroup->_instances.end(); ++fi) {\n      CPPInstance *function = (*fi);\n",
+  expect="R04.10|get_make_property|loop#")
+M("C04-protected-accessor-taken", "C04", "src/interrogate/interrogateBuilder.cxx",
+  "  fgroup = make_property->_get_function;\n  if (fgroup != nullptr) {\n    CPPFunctionGroup::Instances::const_iterator fi;\n    for (fi = fgroup->_instances.begin(); fi != fgroup->_instances.end(); ++fi) {\n      CPPInstance *function = (*fi);\n      if (function->_vis > V_public) {",
+  "  fgroup = make_property->_get_function;\n  if (fgroup != nullptr) {\n    CPPFunctionGroup::Instances::const_iterator fi;\n    for (fi = fgroup->_instances.begin(); fi != fgroup->_instances.end(); ++fi) {\n      CPPInstance *function = (*fi);\n      if (function->_vis > V_protected) {",
+  expect="R04.10|get_make_property|loop#")
+M("C04-benign-accessor-test-form", "C04", "src/interrogate/interrogateBuilder.cxx",
+  "  fgroup = make_property->_get_function;\n  if (fgroup != nullptr) {\n    CPPFunctionGroup::Instances::const_iterator fi;\n    for (fi = fgroup->_instances.begin(); fi != fgroup->_instances.end(); ++fi) {\n      CPPInstance *function = (*fi);\n      if (function->_vis > V_public) {",
+  "  fgroup = make_property->_get_function;\n  if (fgroup != nullptr) {\n    CPPFunctionGroup::Instances::const_iterator fi;\n    for (fi = fgroup->_instances.begin(); fi != fgroup->_instances.end(); ++fi) {\n      CPPInstance *function = (*fi);\n      if (!(function->_vis <= V_public)) {",
+  benign=True)
